@@ -331,13 +331,20 @@ BORROWED = [_borrowed("c04", "r1_typestate"), _borrowed("c04", "r6_single_writer
 
 
 
+def rloop_event_loops_keep_polling(ctx):
+    """a stop request is seen only by a loop that is polling for it: the accept loop and the connection loop suspend only
+    at vetted points, each of which races the stop signal (= C11.LOOP)"""
+    from .common import event_loops_suspend_only_where_vetted
+    event_loops_suspend_only_where_vetted(ctx, "C10.LOOP")
+
+
 def rspawn_vetted_spawn_sites(ctx):
     """work is detached only at the vetted sites"""
     from .common import vetted_spawns
     vetted_spawns(ctx, "C10.SPAWN")
 
 
-RULES = [r1_who_keeps_stopped_pending, r2_service_handle, r3_writer_stops_last, r4_http_stop_arm, rspawn_vetted_spawn_sites] + BORROWED
+RULES = [r1_who_keeps_stopped_pending, r2_service_handle, r3_writer_stops_last, r4_http_stop_arm, rspawn_vetted_spawn_sites, rloop_event_loops_keep_polling] + BORROWED
 
 LEVEL_TEXT = (
     "Only the ownership / ordering skeleton of graceful stop is decided (the statement quantifies over schedules): which "
